@@ -33,6 +33,7 @@ import (
 	"github.com/ontio/ontology-crypto/keypair"
 	"github.com/polynetwork/poly/common"
 	"github.com/polynetwork/poly/common/config"
+	"github.com/polynetwork/poly/common/constants"
 	"github.com/polynetwork/poly/common/log"
 	vconfig "github.com/polynetwork/poly/consensus/vbft/config"
 	"github.com/polynetwork/poly/core/signature"
@@ -468,6 +469,11 @@ func (this *LedgerStoreImp) verifyHeader(header *types.Header, vbftPeerInfo map[
 		}
 		return vbftPeerInfo, nil
 	} else {
+		// a multi-signature address exists for at most MULTI_SIG_MAX_PUBKEY_SIZE keys; for more,
+		// AddressFromBookkeepers yields the empty address, which must not match an empty NextBookkeeper
+		if len(header.Bookkeepers) > constants.MULTI_SIG_MAX_PUBKEY_SIZE {
+			return vbftPeerInfo, fmt.Errorf("too many bookkeepers: %d", len(header.Bookkeepers))
+		}
 		address, err := types.AddressFromBookkeepers(header.Bookkeepers)
 		if err != nil {
 			return vbftPeerInfo, err
